@@ -47,6 +47,10 @@ func (d HypergeometicDist) CDF(k float64) float64 {
 	// Based on Klotz, A Computational Approach to Statistics.
 	ki := int(math.Floor(k))
 	l, h := d.bounds()
+	if k >= float64(h) {
+		// Also covers k beyond the range of int.
+		return 1
+	}
 	if ki < l {
 		return 0
 	} else if ki >= h {
